@@ -183,6 +183,11 @@ def run(chk):
                         "targets": [t[0] + t[1] for t in targets],
                         "models": ev["_sizes"]})
     chk.judge()
+    if chk.tier != "quick":
+        # system-level workflows (spec/Pipeline.tla): the steps that belong
+        # to this property's operations
+        from .pipeline import run_pipelines
+        run_pipelines(chk, "C07")
     return chk.finish(
         rule="seeded grammar sums (1..5 base terms, each with 0..3 planted "
              "alpha-variants incl. exact cancellations, explicit/Einstein "
